@@ -39,6 +39,7 @@ type Engine struct {
 	exprMemo map[token.Pos]string
 	// package-level error variables initialised once with errors.New and never reassigned
 	constErr map[string]int64
+	heapIface *types.Interface
 	// constGlob: package variables of basic type whose only store in the loaded program is a
 	// constant in the package initialiser and whose address is never taken (effectively constants).
 	constGlob map[string]*ssa.Const
@@ -427,4 +428,29 @@ func (eng *Engine) sigParamNames(key string) []string {
 		out = append(out, n)
 	}
 	return out
+}
+
+// implementsHeap: t (or *t) implements container/heap.Interface.
+func (eng *Engine) implementsHeap(t types.Type) bool {
+	if eng.heapIface == nil {
+		for _, p := range eng.prog.AllPackages() {
+			if p.Pkg.Path() == "container/heap" {
+				if o := p.Pkg.Scope().Lookup("Interface"); o != nil {
+					if it, ok := o.Type().Underlying().(*types.Interface); ok {
+						eng.heapIface = it
+					}
+				}
+			}
+		}
+		if eng.heapIface == nil {
+			return false
+		}
+	}
+	if types.Implements(t, eng.heapIface) {
+		return true
+	}
+	if _, isPtr := t.(*types.Pointer); !isPtr {
+		return types.Implements(types.NewPointer(t), eng.heapIface)
+	}
+	return false
 }
